@@ -55,7 +55,7 @@ func c14Program(n map[string]string, declKind int) (*ir.Program, bool) {
 	fA := &ir.Func{Pkg: la, Name: n["fA"], Out: tA, Err: true}
 	fB := &ir.Func{Pkg: lb, Name: n["fB"], Params: []*ir.Type{tA}, Out: tB, Err: true, Cleanup: true}
 	fC := &ir.Func{Pkg: p, Name: n["fC"], Params: []*ir.Type{tB, tP0}, Out: tC, Cleanup: true}
-	fR := &ir.Func{Pkg: p, Name: n["fR"], Params: []*ir.Type{ir.Ptr(tS), tV, tP1}, Out: tR, Err: true}
+	fR := &ir.Func{Pkg: p, Name: n["fR"], Params: []*ir.Type{ir.Ptr(tS), tV, tP1, tC}, Out: tR, Err: true}
 	set := &ir.Set{Pkg: p, Name: n["set"], Items: []*ir.Item{ir.FuncItem(fA), ir.FuncItem(fB)}}
 	inj1 := &ir.Injector{Name: "Init", Params: []ir.Param{{Name: n["param0"], T: tP0}, {Name: n["param1"], T: tP1}}, Out: tR, Err: true, Cleanup: true,
 		Items: []*ir.Item{ir.SetRef(set), ir.FuncItem(fC), ir.StructItem(tS, "*"), ir.ValueItem(tV, 9001), ir.FuncItem(fR)}}
@@ -194,6 +194,12 @@ func checkC14(c *h.Check) {
 		if !ok {
 			skipped++
 			return
+		}
+		for _, inj := range prog.Injectors {
+			if w := ir.NewModel().Solve(inj); !w.Accepted() {
+				c.Internalf("C14 base is not well-formed under naming %s: %v", id, w.Reasons)
+				return
+			}
 		}
 		cs := caseFromProgram(id, prog, true, nil)
 		if c.NoteProgram(cs.Files) {
